@@ -73,3 +73,37 @@ have := mxrankM_maxr Y Ia; have := rank_Ia; lia.
 Qed.
 End Incidence.
 Print Assumptions rank_complex_bound.
+
+(** columns spread over blocks: if every column of S is zero or a row of one of the matrices D c, then
+    rank S <= sum of the ranks of the D c *)
+Section Blocks.
+Variable F : fieldType.
+Variables (m r l : nat).
+Variable S : 'M[F]_(m, r).
+Variable d : 'I_l -> nat.
+Variable D : forall c : 'I_l, 'M[F]_(d c, m).
+Hypothesis cols : forall j : 'I_r,
+  (forall i, S i j = 0) \/ exists c : 'I_l, exists t : 'I_(d c), forall i, S i j = D c t i.
+
+Lemma rank_sums_leq (A : 'I_l -> 'M[F]_m) : (\rank (\sum_c A c)%MS <= \sum_c \rank (A c))%N.
+Proof.
+elim/big_ind2: _ => [|A1 a1 A2 a2 H1 H2|c _]; rewrite ?mxrank0 //.
+by apply: leq_trans (mxrank_adds_leqif _ _) _; apply: leq_add.
+Qed.
+
+Theorem rank_blocks : (\rank S <= \sum_c \rank (D c))%N.
+Proof.
+rewrite -mxrank_tr.
+have sub : (S^T <= \sum_c <<D c>>)%MS.
+  apply/row_subP => j; case: (cols j) => [z|[c [t e]]].
+    have -> : row j S^T = 0 by apply/rowP => i; rewrite !mxE z.
+    exact: sub0mx.
+  have -> : row j S^T = row t (D c) by apply/rowP => i; rewrite !mxE e.
+  apply: (submx_trans (row_sub t (D c))).
+  by apply: (sumsmx_sup c) => //; rewrite genmxE.
+apply: leq_trans (mxrankS sub) _.
+apply: leq_trans (rank_sums_leq _) _.
+by apply: leq_sum => c _; rewrite genmxE.
+Qed.
+End Blocks.
+Print Assumptions rank_blocks.
